@@ -303,6 +303,35 @@ def check_C07(ctx):
     exec_scenarios(ctx, TRACE_INVS["C07"], KF1_PROGS, "thread-local system inside a batch")
 
 
+def check_C11(ctx):
+    # liveness of the design: every width, W = Width terminates with all systems inside run together;
+    # negative control W = Width-1 must stall (otherwise the model would be vacuous)
+    for width in (range(2, 7) if ctx.quick() else range(2, 11)):
+        cfg = "SPECIFICATION Spec\nCHECK_DEADLOCK FALSE\nCONSTANTS\n  Width = %d\n  W = %d\nPROPERTIES\n  Terminates\n  AllTogether\n" % (width, width)
+        res = tlc_mc(ctx, "Rendezvous", cfg, workers=2)
+        if res["violated"]:
+            raise ToolError("the Rendezvous MODEL violates %s at width %d" % (res["violated"], width))
+        ctx.cov["states"] += res["distinct"]
+        ctx.cov["transitions"] += res["states"]
+        neg = tlc_mc(ctx, "Rendezvous", "SPECIFICATION Spec\nCHECK_DEADLOCK FALSE\nCONSTANTS\n  Width = %d\n  W = %d\nINVARIANTS\n  NoStall\n" % (width, width - 1), workers=2)
+        if neg["violated"] != "NoStall":
+            raise ToolError("negative control failed: Rendezvous with W < Width does not stall (width %d)" % width)
+        ctx.cov["model_runs"].append({"module": "Rendezvous", "Width": width, "W": width, "properties": ["Terminates (liveness, WF)", "AllTogether"],
+                                      "distinct": res["distinct"], "negative_control_W": width - 1, "negative_control": "stalls as required"})
+    out = ctx.fresh("rv", "ndjson")
+    st = run_bin(ctx, "exec", ["rendezvous", "--seed", ctx.seed, "--out", out, "--reps", 3 if ctx.quick() else 10,
+                               "--wmax", 16], timeout=3000)
+    ctx.cov["impl_runs"].append({"kind": "impl->spec rendezvous runs (widths 2..16; user pool, dispatch_par, default pool, inside a batch, async, "
+                                         "called from a foreign pool; several running-time hint sets)", "runs": st["runs"],
+                                 "reproduced_stalls": st["stalls"], "skipped_default_pool": st["skipped_default_pool"], "cores": st["cores"]})
+    ctx.cov["traces_validated_against_impl"] += st["runs"]
+    for x in st["samples"][:2]:
+        ctx.sample({"kind": "rendezvous run", "case": x})
+    validate_blocks(ctx, "RendezvousTrace", out, ["InvC11"], classify=None)
+    ctx.assumptions += ["a stall is a 20 s timeout of a rendezvous system that reproduces in two immediate repetitions",
+                        "C11 can only be refuted on the implementation (reproducible stall), never proved"]
+
+
 def check_C12(ctx):
     exec_family(ctx, "C12", extra=["--ptl", 0.2, "--modes", "disp,disp,tlonly,seq"], mc=("tl",))
     exec_scenarios(ctx, TRACE_INVS["C12"], KF1_PROGS, "thread-local system inside a batch")
@@ -462,6 +491,7 @@ CHECKS = {
     "C18": check_C18,
     "C19": check_C19,
     "C10": check_C10,
+    "C11": check_C11,
     "C20": check_C20,
 }
 
